@@ -1,10 +1,10 @@
 """Per-property plan: which engines run besides the contract/lemma obligations tagged with the property."""
 
 PLAN = {
-    'C01': dict(level='proof', engines=['sumlib', 'segnative', 'tasknative', 'beatstruct']),
+    'C01': dict(level='proof', engines=['sumlib', 'segnative', 'tasknative', 'beatstruct', 'libconf']),
     'C02': dict(level='proof', engines=['tasknative']),
     'C03': dict(level='proof', engines=['bundles']),
-    'C04': dict(level='proof', engines=['keynative', 'matchnative', 'tasknative', 'multipitchnative']),
+    'C04': dict(level='proof', engines=['keynative', 'matchnative', 'tasknative', 'multipitchnative', 'libconf']),
     'C05': dict(level='other', engines=['matchnative'],
                 explanation='The property is about the matcher bodies (Hopcroft-Karp, hit-window search, note-matching matrices); these are checked by exhaustive '
                             'small-scope enumeration against brute-force maximum matching (bounded stand-in, the property\'s own quantifier: all graphs up to 4x5) and are '
@@ -17,8 +17,8 @@ PLAN = {
     'C10': dict(level='proof', engines=['chordre', 'chordnative']),
     'C11': dict(level='proof', engines=['chordnative']),
     'C12': dict(level='proof', engines=['sumlib', 'segnative', 'hiernative', 'chordevalnative']),
-    'C13': dict(level='proof', engines=['intervalsnative']),
-    'C14': dict(level='proof', engines=['tasknative']),
+    'C13': dict(level='proof', engines=['intervalsnative', 'libconf']),
+    'C14': dict(level='proof', engines=['tasknative', 'libconf']),
     'C16': dict(level='proof', engines=['forward', 'segnative']),
     'C17': dict(level='proof', engines=['hiernative', 'bundles']),
     'C18': dict(level='proof', engines=['sumlib', 'multipitchnative', 'matchnative']),
